@@ -2,6 +2,7 @@ package driver
 
 import (
 	"fmt"
+	"os"
 
 	"github.com/flowmatters/openwater-core/sim"
 	"verif/domains"
@@ -54,6 +55,7 @@ type cellCase struct {
 	CIn, CSt, COut, CPar   bool
 	DN, DO, DT             int
 	Warm                   bool
+	Arbitrary              bool // state rows hold arbitrary small non-negative values
 	cols                   [][]float64
 	inBlocks               [][][]float64 // [block][input][t]
 	stateRows              [][]float64
@@ -64,7 +66,7 @@ type cellCase struct {
 func (c *cellCase) sample() map[string]interface{} {
 	return map[string]interface{}{"model": c.Model, "cells": c.N, "param_sets": c.P, "input_blocks": c.I, "timesteps": c.T,
 		"table_dim": c.MaxDim, "c_backed": map[string]bool{"inputs": c.CIn, "states": c.CSt, "outputs": c.COut, "params": c.CPar},
-		"oversize": []int{c.DN, c.DO, c.DT}, "warm_states": c.Warm}
+		"oversize": []int{c.DN, c.DO, c.DT}, "warm_states": c.Warm, "arbitrary_states": c.Arbitrary}
 }
 
 func drawCellCase(w *simrt.Tape, maxCells, maxT int) *cellCase {
@@ -83,6 +85,9 @@ func drawCellCase(w *simrt.Tape, maxCells, maxT int) *cellCase {
 	over := []int{0, 0, 0, 1, 2}
 	c.DN, c.DO, c.DT = over[w.Choose(5)], over[w.Choose(5)], over[w.Choose(5)]
 	c.Warm = w.Bool(50)
+	if os.Getenv("VERIF_FORCE_C") != "" {
+		c.CIn, c.CSt, c.COut, c.CPar = true, true, true, true
+	}
 	c.cols, c.MaxDim = drawColumns(w, c.Model, c.P)
 	for b := 0; b < c.I; b++ {
 		c.inBlocks = append(c.inBlocks, domains.GenInputs(w, c.Model, c.cols[b%c.P], c.MaxDim, c.T))
@@ -93,6 +98,14 @@ func drawCellCase(w *simrt.Tape, maxCells, maxT int) *cellCase {
 		if c.Warm && len(row) > 0 {
 			wt := 1 + w.Choose(6)
 			_, row = refRun(c.Model, c.desc, col, c.MaxDim, row, domains.GenInputs(w, c.Model, col, c.MaxDim, wt), wt)
+		}
+		if !c.Warm && arbitraryStatesOK(c.Model) && w.Bool(35) {
+			// any state values, not only those the model itself produces (the properties
+			// quantify over all state values): small non-negative numbers
+			c.Arbitrary = true
+			for j := range row {
+				row[j] = float64(w.Choose(60)) / 8
+			}
 		}
 		c.stateRows = append(c.stateRows, row)
 	}
@@ -157,7 +170,7 @@ func engineCells(rc *RunCtx) *Outcome {
 		}
 		outputs := mk3(c.COut, oN, oO, oT, ov)
 		model := setupModel(c.Model, params)
-		if k == 0 && !c.Warm {
+		if k == 0 && !c.Warm && !c.Arbitrary {
 			// state initialisation per cell: InitialiseStates(N) of the vectorised model must give
 			// each cell the initial states of that cell alone (parameter sets repeat cyclically)
 			var initAll []float64
@@ -189,7 +202,7 @@ func engineCells(rc *RunCtx) *Outcome {
 			}
 			o.probe("initialise_states_vectorised")
 		}
-		s := simrt.Run(rc.T, simrt.Config{TraceCap: 0}, rc.S, func() {
+		s := simrt.Run(rc.T, simrt.Config{TraceCap: 0, DeepPct: 20}, rc.S, func() {
 			model.Run(inputs, states, outputs)
 		})
 		o.Sim = s
@@ -274,5 +287,18 @@ func engineCells(rc *RunCtx) *Outcome {
 	if c.MaxDim > 0 {
 		o.probe("dimensioned_model")
 	}
+	if c.Arbitrary {
+		o.probe("arbitrary_state_values")
+	}
 	return o
+}
+
+// arbitraryStatesOK: models whose state vector is a plain list of stores (no counters or
+// lengths inside it, fixed width) tolerate arbitrary small non-negative state values.
+func arbitraryStatesOK(model string) bool {
+	switch model {
+	case "GR4J", "Lag", "Storage":
+		return false
+	}
+	return true
 }
